@@ -928,3 +928,61 @@ func VerifC01_Switch() {
 	zzverif.Assert(ok && got == interface{}(want), "switch: executes other statements than the first matching case (or default) alone")
 	zzverif.Reach("switch")
 }
+
+// match with array patterns: a pattern of k fixed elements matches arrays of
+// exactly k elements; with a rest binding it matches k or more and binds the
+// tail; element patterns can be literals; the first matching case wins; no
+// array length makes the evaluation crash
+const srcMatchArray = `
+@ POST /t {
+  $ r = match input.items {
+    [first, second, ...rest] => first + second * 10 + length(rest) * 100
+    [7] => "seven"
+    [x] => x
+    [] => "empty"
+    _ => "other"
+  }
+  > r
+}
+`
+
+func VerifC01_MatchArray() {
+	n := zzverif.IntRange("length", 0, 4)
+	a, b := int64(zzverif.IntRange("a", 5, 8)), int64(zzverif.IntRange("b", -2, 2))
+	var body interface{}
+	switch zzverif.Choice("subject", 3) {
+	case 0:
+		items := make([]interface{}, n)
+		for k := range items {
+			items[k] = int64(k) + 1
+		}
+		if n > 0 {
+			items[0] = a
+		}
+		if n > 1 {
+			items[1] = b
+		}
+		body = map[string]interface{}{"items": items}
+	case 1:
+		body, n = map[string]interface{}{"items": "text"}, -1
+	default:
+		body, n = map[string]interface{}{"items": nil}, -1
+	}
+	got, ok := runSource(srcMatchArray, body, nil)
+	zzverif.Assert(ok, "match on arrays: evaluation failed")
+	var want interface{}
+	switch {
+	case n < 0:
+		want = "other"
+	case n == 0:
+		want = "empty"
+	case n == 1 && a == 7:
+		want = "seven"
+	case n == 1:
+		want = a
+	default:
+		want = a + b*10 + int64(n-2)*100
+	}
+	zzverif.Assert(got == want, "match on arrays: another case than the first matching one ran, or a binding is wrong")
+	zzverif.Reach("match-array")
+}
